@@ -474,13 +474,13 @@ def _cases(ctx):
             out.append(_permuted(r, c))
     # crowded fields with a large maxmatch: one first-list point with several hundred partners (and the mirror image); the limit
     # "each point at most maxmatch times" is a count, not a byte
-    for _ in range(ctx.n(4, 40)):
+    for it_ in range(ctx.n(4, 40)):
         a, d, ml = float(r.uniform(20, 340)), float(r.uniform(-60, 60)), float(10 ** r.uniform(-2, 0))
-        nn = int(r.choice([300, 420, 520]))
+        nn = int(r.choice([300, 420, 520])) if it_ >= 4 else 520
         ra_c = [float(a + r.uniform(-0.3, 0.3) * ml / math.cos(math.radians(d))) for _ in range(nn)]
         dec_c = [float(d + r.uniform(-0.3, 0.3) * ml) for _ in range(nn)]
-        mm = int(r.choice([256, 257, 300, 2000, 255]))
-        if r.random() < 0.5:
+        mm = int(r.choice([256, 257, 300, 2000, 255])) if it_ >= 4 else (256, 300, 256, 300)[it_]
+        if (r.random() < 0.5) if it_ >= 4 else (it_ < 2):
             out.append(_mk('crowded', [a, a + 5 * ml], [d, d], ra_c, dec_c, ml, None, mm))
         else:
             out.append(_mk('crowded', ra_c, dec_c, [a, a + 5 * ml], [d, d], ml, None, mm))
